@@ -116,7 +116,7 @@ def working_fno_spec(optic):
 def gen_cases(ctx):
     rng = ctx.rng
     q = ctx.quick()
-    n_psf = 64 if q else 1000
+    n_psf = 64 if q else 700
     n_geo = 40 if q else 500
     n_big = 3 if q else 24
     cases = []
